@@ -116,4 +116,44 @@ example : Op.floordiv.cell true none (some 2) true = none ∧
     Op.mod.cell true (some (-7)) (some 2) false = some 1 := by
   decide +kernel
 
+/-- an index that lies inside a shape -/
+def InShape : List Nat → List Nat → Prop
+  | [], [] => True
+  | i :: idx, n :: sh => i < n ∧ InShape idx sh
+  | _, _ => False
+
+/-- the cell of a tabulated array -/
+theorem get_build {α} : ∀ (sh : List Nat) (f : List Nat → α) (idx : List Nat), InShape idx sh →
+    Arr.get (Arr.build sh f) idx = some (f idx)
+  | [], f, [], _ => rfl
+  | [], _, _ :: _, h => by simp [InShape] at h
+  | _ :: _, _, [], h => by simp [InShape] at h
+  | n :: sh, f, i :: idx, h => by
+    obtain ⟨hi, hrest⟩ := h
+    simp only [Arr.build, Arr.get]
+    rw [List.getElem?_map, List.getElem?_range hi]
+    simp only [Option.map_some]
+    exact get_build sh (fun idx => f (i :: idx)) idx hrest
+
+/-- **C06 (a one-step / one-layer right operand).** The right operand stretched to the left shape has, at every index
+of the left shape, the cell of the right operand at that index with the axes of length one read at 0 — its value or its
+missing-ness, which `zipCells` then combines with the left cell like any other pair of cells. -/
+theorem bcast_cell (sv sw : List Nat) (a : Arr Cell) (idx : List Nat) (h : InShape idx sv) :
+    Arr.get (bcast sv sw a) idx =
+      some ((Arr.get a (List.zipWith (fun i n => if n == 1 then 0 else i) idx sw)).getD (none : Cell)) := by
+  unfold bcast
+  exact get_build sv _ idx h
+
+/-- a right operand of the same shape is taken as it is -/
+theorem rightData_same (f1 f2 : File) (v w : Var) (h : f1.shapeOf v = f2.shapeOf w) :
+    rightData f1 f2 v w = w.data := by
+  unfold rightData
+  simp [h]
+
+/-- non-vacuity: a 2 x 3 left shape against a 1 x 3 right operand whose middle cell is missing -/
+example : bcastOk [2, 3] [1, 3] = true ∧ bcastOk [1, 3] [2, 3] = false ∧
+    Arr.get (bcast [2, 3] [1, 3] (.node [.node [.leaf (some 5), .leaf none, .leaf (some 7)]])) [1, 1] = some none ∧
+    Arr.get (bcast [2, 3] [1, 3] (.node [.node [.leaf (some 5), .leaf none, .leaf (some 7)]])) [1, 2] = some (some 7) := by
+  decide +kernel
+
 end Props.C06
